@@ -9,10 +9,11 @@
         for each old backend in list order: if confMap has its AddrInfo (and addr,port match)
               { UpdateWeight; keep; delete(confMap, key) }  else  { Release }
         for the remaining confMap entries (map order): new backend (avail, restarted)
-    BalanceGslb.Reload(gslbConf): for each old sub in order: in conf -> weight = conf weight, keep; else sub.release()
+    BalanceGslb.Reload(gslbConf): Check() (Σ positive weights > 0) else error, nothing touched;  for each old sub in order: in conf -> weight = conf weight, keep; else sub.release()
         new subs for conf names not among the old; sort by name; totalWeight = Σ positive weights;
-        if totalWeight == 0 { return error }   -- AFTER the releases and weight updates, old list stays
         subClusters = new list
+        (fix C09-reload-check-first: `if gslbConf.Check() != nil { return error }` now comes FIRST, before any release;
+         the old placement after the loop is kept as `gslbReloadOld` for the witness theorems)
     BalanceGslb.BackendReload(clusterBackend): for each sub: if clusterBackend has sub.Name { sub.update(it) }   -- else untouched
     BalTable.BalTableReload(gslb, table): for each cluster of gslb: existing or new balancer; Reload (error => fails, balancer kept anyway)
         balancers not in gslb: Release() (every backend of every sub)
@@ -93,29 +94,40 @@ def totalWeight (subs : List Sub) : Int :=
 
 def relSub (s : Sub) : Sub := { s with backs := s.backs.map rel }
 
-/-- what the error path of Reload leaves behind for one old sub-cluster -/
+/-- GslbClusterConf.Check: total of the positive weights -/
+def confTotal (gc : List (String × Int)) : Int :=
+  gc.foldl (fun t p => if p.2 > 0 then t + p.2 else t) 0
+
+/-- BalanceGslb.Reload: (cluster after, objects that left the table, error?).
+    After fix C09-reload-check-first the conf is checked BEFORE anything is modified: the error return
+    leaves the cluster exactly as it was. -/
+def gslbReload (c : Cluster) (gc : List (String × Int)) : Cluster × List Backend × Bool :=
+  if confTotal gc ≤ 0 then (c, [], true)
+  else
+    let kept := c.subs.filterMap fun s => (gc.lookup s.name).map fun w => { s with weight := w }
+    let vanished := (c.subs.filter fun s => (gc.lookup s.name).isNone).map relSub
+    let news := (gc.filter fun p => !(c.subs.any fun s => s.name == p.1)).map fun p => ({ name := p.1, weight := p.2, backs := [] } : Sub)
+    ({ c with subs := (kept ++ news).mergeSort subLe }, vanished.flatMap (·.backs), false)
+
+/-- the unfixed Reload (total-weight test AFTER the releases, old list kept on error): kept for the witness theorems -/
 def errSub (gc : List (String × Int)) (s : Sub) : Sub :=
   match gc.lookup s.name with
   | some w => { s with weight := w }
   | none => relSub s
 
-/-- BalanceGslb.Reload: (cluster after, objects that left the table, error?) -/
-def gslbReload (c : Cluster) (gc : List (String × Int)) : Cluster × List Backend × Bool :=
+def gslbReloadOld (c : Cluster) (gc : List (String × Int)) : Cluster × List Backend × Bool :=
   let kept := c.subs.filterMap fun s => (gc.lookup s.name).map fun w => { s with weight := w }
   let vanished := (c.subs.filter fun s => (gc.lookup s.name).isNone).map relSub
   let news := (gc.filter fun p => !(c.subs.any fun s => s.name == p.1)).map fun p => ({ name := p.1, weight := p.2, backs := [] } : Sub)
   let subsNew := (kept ++ news).mergeSort subLe
-  if totalWeight subsNew == 0 then
-    -- error return: weights already overwritten, vanished subs already released, OLD list stays
-    ({ c with subs := c.subs.map (errSub gc) }, [], true)
-  else
-    ({ c with subs := subsNew }, vanished.flatMap (·.backs), false)
+  if totalWeight subsNew == 0 then ({ c with subs := c.subs.map (errSub gc) }, [], true)
+  else ({ c with subs := subsNew }, vanished.flatMap (·.backs), false)
 
 /-- BalanceGslb.BackendReload -/
 def backendReload (c : Cluster) (cb : List (String × List BConf)) : Cluster × List Backend :=
   let r := c.subs.map fun s =>
     match cb.lookup s.name with
-    | some conf => let (l, g) := rrUpdate s.backs conf; ({ s with backs := l }, g)
+    | some conf => ({ s with backs := (rrUpdate s.backs conf).1 }, (rrUpdate s.backs conf).2)
     | none => (s, [])
   ({ c with subs := r.map (·.1) }, r.flatMap (·.2))
 
@@ -136,7 +148,7 @@ def balTableReload (st : St) (g : GslbConf) (bc : TableConf) : Res :=
   let g1 := r1.flatMap (·.2.1) ++ remainder.flatMap fun c => c.subs.flatMap fun s => s.backs.map rel
   let r2 := r1.map fun x =>
     match bc.lookup x.1.name with
-    | some cb => let (c, gr) := backendReload x.1 cb; (c, gr, false)
+    | some cb => ((backendReload x.1 cb).1, (backendReload x.1 cb).2, false)
     | none => (x.1, [], true)
   { st := { clusters := r2.map (·.1), grave := st.grave ++ g1 ++ r2.flatMap (·.2.1) }
     gslbErr := r1.any (·.2.2), tableErr := r2.any (·.2.2) }
@@ -161,6 +173,10 @@ def balTableInit (g : GslbConf) (bc : TableConf) : Res :=
       | some cb => ({ c with subs := c.subs.map (initSub cb) }, false)
       | none => (c, true)
     { st := { clusters := r.map (·.1) }, gslbErr := false, tableErr := r.any (·.2) }
+
+/-- a whole history: Init, then any number of BalTableReload calls (errors of a step do not stop the history) -/
+def runHist (g0 : GslbConf) (bc0 : TableConf) (h : List (GslbConf × TableConf)) : St :=
+  h.foldl (fun st p => (balTableReload st p.1 p.2).st) (balTableInit g0 bc0).st
 
 def tableObjs (st : St) : List Backend := st.clusters.flatMap fun c => c.subs.flatMap (·.backs)
 
